@@ -252,9 +252,55 @@ def _only_unit_stmts(stmts):
     return True
 
 
-def thread_jumps(raw, rounds=6):
-    """`x = const c; goto M` with `M: switch x [..]` becomes a jump to the branch that c selects.  Restores, for
-    dominance-based rules, the correlation that boolean temporaries (matches!, inlined predicate helpers) hide."""
+def _pure_simple(stmts):
+    """only assignments of constants / plain locals / Not of a plain local to plain locals (no side effect, cheap to copy)"""
+    if len(stmts) > 6:
+        return False
+    for st in stmts:
+        k = st.get("k")
+        if k in ("storagelive", "storagedead", "nop"):
+            continue
+        if k != "assign" or st["place"]["p"]:
+            return False
+        rv = st["rv"]
+        if rv["k"] == "use":
+            o = rv["op"]
+        elif rv["k"] == "unop" and rv["op"] == "Not":
+            o = rv["x"]
+        else:
+            return False
+        if o.get("k") == "const":
+            continue
+        if o.get("k") in ("copy", "move") and not o["place"]["p"]:
+            continue
+        return False
+    return True
+
+
+def _defined_in(own, allstmts, discr):
+    """the switched local is, through plain copies / Not, a local assigned by a non-constant rvalue in `own`"""
+    if discr.get("k") not in ("copy", "move") or discr["place"]["p"]:
+        return False
+    l = discr["place"]["l"]
+    for st in reversed(allstmts):
+        if st.get("k") != "assign" or st["place"]["p"] or st["place"]["l"] != l:
+            continue
+        rv = st["rv"]
+        o = rv.get("op") if rv["k"] == "use" else (rv.get("x") if rv["k"] == "unop" and rv["op"] == "Not" else None)
+        if isinstance(o, dict) and o.get("k") in ("copy", "move") and not o["place"]["p"]:
+            l = o["place"]["l"]
+            continue
+        if isinstance(o, dict) and o.get("k") == "const":
+            return False
+        return any(st is x for x in own)
+    return False
+
+
+def thread_jumps(raw, rounds=8):
+    """`x = const c; goto M` where M (through a short chain of side-effect-free blocks that only copy locals)
+    switches on a value that c determines becomes a jump to the selected branch; the copied assignments are
+    duplicated into the jumping block.  Restores, for dominance-based rules, the correlation that boolean
+    temporaries (matches!, inlined predicate helpers returning a bool) hide."""
     blocks = raw["blocks"]
     changed = 0
     for _ in range(rounds):
@@ -263,28 +309,134 @@ def thread_jumps(raw, rounds=6):
             t = b["term"]
             if t["k"] != "goto" or b.get("cleanup"):
                 continue
-            m = blocks[t["target"]]
-            mt = m["term"]
-            if mt["k"] != "switch" or not _only_unit_stmts(m["stmts"]):
+            chain = []
+            cur = t["target"]
+            stmts = list(b["stmts"])
+            hit = None
+            for _hop in range(4):
+                m = blocks[cur]
+                if m.get("cleanup") or not _pure_simple(m["stmts"]) or cur in chain:
+                    break
+                chain.append(cur)
+                stmts = stmts + m["stmts"]
+                mt = m["term"]
+                if mt["k"] == "goto":
+                    cur = mt["target"]
+                    continue
+                if mt["k"] == "switch":
+                    d = mt["discr"]
+                    if d.get("k") in ("copy", "move") and not d["place"]["p"]:
+                        v = _const_env(stmts).get(d["place"]["l"])
+                        if v is not None:
+                            nxt = mt["otherwise"]
+                            for val, x in mt["targets"]:
+                                if str(val) == str(v):
+                                    nxt = x
+                            hit = nxt
+                break
+            if hit is None:
+                # not constant: if the switched value is computed in this very block (an inlined predicate's
+                # `return a != b`), move the switch here so that it is described by that computation
+                m = blocks[cur] if chain and chain[-1] == cur else None
+                if m is not None and m["term"]["k"] == "switch" and _defined_in(b["stmts"], stmts, m["term"]["discr"]):
+                    extra = []
+                    for c in chain:
+                        extra += copy.deepcopy(blocks[c]["stmts"])
+                    b["stmts"] = b["stmts"] + extra
+                    b["term"] = dict(copy.deepcopy(m["term"]), threaded=True)
+                    progress = True
+                    changed += 1
                 continue
-            d = mt["discr"]
-            if d.get("k") not in ("copy", "move") or d["place"]["p"]:
+            if not _const_env(b["stmts"]):
+                continue          # nothing constant set here: not a boolean-temporary join
+            extra = []
+            for c in chain:
+                extra += copy.deepcopy(blocks[c]["stmts"])
+            if hit == t["target"] and not extra:
                 continue
-            env = _const_env(b["stmts"])
-            v = env.get(d["place"]["l"])
-            if v is None:
-                continue
-            nxt = mt["otherwise"]
-            for val, x in mt["targets"]:
-                if str(val) == str(v):
-                    nxt = x
-            if nxt != t["target"]:
-                b["term"] = dict(t, target=nxt, threaded=True)
-                progress = True
-                changed += 1
+            b["stmts"] = b["stmts"] + extra
+            b["term"] = dict(t, target=hit, threaded=True)
+            progress = True
+            changed += 1
         if not progress:
             break
     return changed
+
+
+_KNOWN = None
+
+
+def known_functions():
+    """function keys of the pinned tree (rules/tables/known_functions.txt)"""
+    global _KNOWN
+    if _KNOWN is None:
+        p = os.path.join(HERE, "rules", "tables", "known_functions.txt")
+        _KNOWN = set(l.strip() for l in open(p) if l.strip() and not l.startswith("#"))
+    return _KNOWN
+
+
+def top(key):
+    return key.split("::{closure")[0]
+
+
+def normalize_program(P):
+    """Functions that do not exist on the pinned tree are helpers introduced by a later change.  Every rule judges
+    their code inlined into the known functions that call them: the bodies of the callers are replaced by inlined
+    (and jump-threaded) views, and a helper that is only ever used through resolved direct calls is dropped as a
+    function of its own.  Trait impl methods, functions used as values and functions nobody calls stay."""
+    known = known_functions()
+    new = set()
+    for b in P.bodies.values():
+        if b.is_closure or b.impl_trait or b.derived or b.exp:
+            continue
+        if b.key not in known:
+            new.add(b.key)
+    P.normalized_helpers = []
+    if not new:
+        return
+    standalone = set()
+    for b in P.bodies.values():
+        for bb, o in b.iter_operands():
+            if o.get("k") == "const" and o.get("fn"):
+                f = norm(o.get("fn_resolved") or o["fn"])
+                if f in new:
+                    standalone.add(f)
+    inl = new - standalone
+
+    def pol(root_key, callee, depth):
+        return callee.key in inl and depth <= MAX_DEPTH and len(callee.blocks) <= MAX_BLOCKS
+    pol.__name__ = "new_helpers:" + ",".join(sorted(inl))
+    views = {}
+    called = set()
+    for k in list(P.bodies):
+        if k in inl:
+            continue
+        v = inlined(P, k, pol)
+        if getattr(v, "inlined_callees", None):
+            views[k] = v
+            called |= set(v.inlined_callees)
+    for k, v in views.items():
+        old = P.bodies[k]
+        P.bodies[k] = v
+        lst = P.by_file[old.file]
+        lst[lst.index(old)] = v
+    for k in sorted(inl & called):
+        # inlined at every call site of a known function?  calls from other dropped helpers were inlined transitively
+        still = False
+        for b in P.bodies.values():
+            if b.key in inl:
+                continue
+            for bb, t in b.calls(live_only=False):
+                f = t["f"]
+                if f.get("def") is not None and k in (norm(f.get("resolved") or ""), norm(f["def"])):
+                    still = True
+        if still:
+            continue
+        old = P.bodies.pop(k)
+        P.by_file[old.file].remove(old)
+        P.normalized_helpers.append(k)
+    P._callgraph = None
+    P._children = None
 
 
 def normalized(P, key, _cache={}):
